@@ -121,6 +121,21 @@ CHECKS.append({
             "conditioning in far tails only through the implementation-side scipy oracle at 1e-2.",
 })
 
+CHECKS.append({
+    "property_id": "C12",
+    "design_ref": "DESIGN.md 5 (C12)",
+    "technique": "Coq proof over generate_prior symbolically executed for each of the seven profile types, the two parameter tables and the multi-prior "
+                 "loop (all regenerated by the ast translator): set equalities by computation, support bounds by lra, key injectivity by string lemmas; "
+                 "vm_compute/interval correspondence with real prior objects; implementation-side oracle on photutils-driven autoprior",
+    "text": "Seven theorems (Props/C12.v) for ALL guess values: each profile type gets exactly its required parameter set (the duplicated tables agree as "
+            "sets); supports stay in the physical domain (r_eff>=0.5, 0<=ellip<=0.9, 0.65<=n<=8, 0<=theta<=2pi, fractions in [0,1]); flux/xc/yc are Gaussians "
+            "centred on the guesses; multi-source keys p_i<suffix> are injective in (parameter, source).  Keys, distribution classes, hyper-parameters and "
+            "bounds of real generate_prior / PySersicMultiPrior objects (dict, DataFrame, recarray catalogues) are compared with the model inside Coq.",
+    "note": "Trusted: Coq kernel, Interval, Reals axioms; translator units GeneratePrior/ProfileParams/PriorHelpers; photutils is an oracle (guesses are "
+            "universally quantified; finiteness, detectability and the zero-based x=column/y=row centring are checked only by the implementation-side "
+            "oracle on rendered images); decimal formatting modelled by Coq's string_of_uint.",
+})
+
 _PENDING = "check not built yet in this session (build order in DESIGN.md section 9); will be claimed once its Coq model, theorems and tie exist"
 NOT_APPLICABLE = [
     {"property_id": "C%02d" % i, "reason": _PENDING}
